@@ -23,7 +23,7 @@ BOUNDED = {'simple_bounds', 'simple_bounds_newton', 'simple_bounds_BFGS', 'scipy
 
 def make_config(rng, profile, tier):
     cfg = specs.gen_model_config(rng, k_max=4, fancy_names=False, allow_cliff=False, weight=True)
-    cfg['names'] = rng.sample(['asc', 'b_time', 'b_cost', 'beta', 'BETA', 'b', 'b1', 'b10', 'mu', 'a_b'], cfg['K'])
+    cfg['names'] = rng.sample(['asc', 'b_time', 'b_cost', 'beta', 'BETA', 'b', 'b1', 'b10', 'b2', 'mu', 'a_b', 'C_z'], cfg['K'])
     cfg['N'] = rng.choice([1, 2, 3, 5, 7, 12, 20, 40]) if rng.random() < 0.6 else rng.randrange(1, 41)
     cfg['threads'] = rng.choice([1, 2, 3, 0])
     cfg['panel'] = (profile != 'est') and rng.random() < 0.15
@@ -832,6 +832,19 @@ class Session:
             rec = self.make_object(T, None, save=save)
         b = rec['b']
         b.biogeme_parameters.set_value('optimization_algorithm', algo)
+        # buggify: with or without the HTML report (written before the caller reads anything from the results)
+        b.biogeme_parameters.set_value('generate_html', bool((T or 0) % 2))
+        if self.cfg['K'] >= 2 and (T or 0) % 3 == 0:
+            # another model built on SOME of the same parameter objects (a restricted specification) before this one is
+            # estimated: the results of this estimation are those of its own parameters, by name
+            import biogeme.biogeme as bio
+            import biogeme.database as db
+            shared = [rec['betas'][n_] for n_ in sorted(self.cfg['names'])[1:]]
+            sub = shared[0] * shared[0]
+            for s_ in shared[1:]:
+                sub = sub + s_ * s_
+            bio.BIOGEME(db.Database('restricted', rec['table'].copy()), {'log_like': -sub}, parameters=self._params(1))
+            ctx.probe('restricted model built on shared parameter objects before the estimation')
         # the tolerance is a setting of the object that may change between two estimations (buggify knob): what
         # "convergence reported" promises is measured against the value in force for THIS estimation
         default_tol = 1.220703125e-4
